@@ -79,6 +79,23 @@ def run(facts, tr, rep):
         rep.ob("C11.LOCK-REGION", skey(b, "remove" + ("+send" if sends else "")), ok, "%s:%d" % (b.span["file"], b.span["line"]),
                "removal%s happens under one lock guard" % (" and broadcast of the result" if sends else "") if ok else
                "removal / broadcast are not under one lock guard")
+    # ONLY-OWN-KEY: the registry is touched one key at a time; a bulk operation (retain / clear / drain / extract_if)
+    # on the map that comes out of the lock removes registrations of *other* keys whose calls are still in flight
+    BULK = ("retain", "clear", "drain", "extract_if", "retain_mut")
+    nbulk = 0
+    for b in facts.crates[CRATE].bodies:
+        for c in graph(b).calls():
+            if c.name in BULK and "HashMap" in (c.path or "") and c.args:
+                recv = tr.expand(tr.operand(b, c.args[0], c.loc))
+                if calls_in(tr, recv, lambda x: x.name in ("lock", "write", "lock_arc") and "utex" in (x.path or "")):
+                    nbulk += 1
+                    rep.saw(b)
+                    rep.ob("C11.ONLY-OWN-KEY", skey(b, "%s#%d" % (c.name, ordinal(graph(b), c))), False, c.where(),
+                           "`%s` on the in-flight registry removes entries of keys other than the caller's own: a leader still running "
+                           "loses its registration, the next request for that key starts a second inner call and waiters of the first "
+                           "are never notified" % c.name)
+    rep.ob("C11.ONLY-OWN-KEY", "%s|registry-bulk-ops" % CRATE, nbulk == 0, "-",
+           "the in-flight registry is only modified one key at a time (insert/remove by key)" if nbulk == 0 else "%d bulk operation(s) on the registry" % nbulk)
     join_defs = {b.def_ for (b, _mc) in joins}
     remover_defs = {b.def_ for (b, _mc) in removers}
     # ---------------------------------------------------------------- LEADER
@@ -106,7 +123,7 @@ def run(facts, tr, rep):
     for (b, e) in leader_edges[:1]:
         sw = e["sw"]
         start = sw.variants.get(e["label"]) if e["kind"] == "enum" else sw.variants.get("true")
-        viol, transfers = P.explore(b, start, None)
+        viol, transfers = P.explore(b, start, None, came_from=e["bb"])
         classes = {}
         for (kind, wherex, path) in viol:
             classes.setdefault(kind, (wherex, path))
